@@ -159,6 +159,7 @@ static void gamma_grid(unsigned long long& unit)
 {
 	std::vector<double> xs;
 	for(int k = 1; k <= 1600; k++) xs.push_back(k / 8.0);
+	for(int k = 0; k <= 40; k++) xs.push_back(170.0 + k * 0.04);	 // up to the overflow point of Gamma
 	for(int k = 0; k <= 400; k++) xs.push_back(std::pow(10.0, -6 + k / 40.0));
 	// the whole positive range: tiny arguments (Gamma ~ 1/x - gamma_E) and huge ones (Stirling regime)
 	for(int k = 0; k <= 1176; k++) xs.push_back(std::pow(10.0, -300 + k / 4.0));	  // 1e-300 .. 1e-6
@@ -176,7 +177,7 @@ static void gamma_grid(unsigned long long& unit)
 		ld tol = 16 * (ld)U_ * std::max((ld)1, fabsl(refv));
 		if(!(fabsl(v - refv) <= tol)) fail("gammaln", key, "gammaln_inaccurate", "GammaLn = " + mc::dec(v) + " reference " + mc::dec((double)refv) + " error/u = " + mc::dec((double)(fabsl(v - refv) / U_ / std::max((ld)1, fabsl(refv)))));
 		else mc::maxi("gammaln_err_in_u", (double)(fabsl(v - refv) / U_ / std::max((ld)1, fabsl(refv))), key);
-		if(x + 1 <= 170)
+		if(x + 1 <= 171.6)	 // Gamma is finite up to 171.62
 		{
 			double g = Gamma(x), g1 = Gamma(x + 1);
 			ld amp = 32 * (ld)U_ * (1 + std::max(fabsl(lgammal((ld)x + 1)), fabsl(refv)));	// Gamma = exp(GammaLn): the rounding of the logarithm is amplified by its size
